@@ -8,6 +8,7 @@ import LiquidModel.Drv.C18
 import LiquidModel.Drv.C16
 import LiquidModel.Drv.C15
 import LiquidModel.Drv.C11
+import LiquidModel.Drv.C12
 namespace Liquid.Drv
 
 /-- op name ↦ handler; each `Drv/*.lean` contributes its ops here. -/
@@ -28,6 +29,8 @@ def dispatch (op : String) : Option (List String → String) :=
   | "c16f" => some c16FilterOp
   | "c15" => some c15Op
   | "c11" => some c11Op
+  | "c12" => some c12Op
+  | "c12t" => some c12tOp
   | _ => none
 
 end Liquid.Drv
